@@ -423,7 +423,7 @@ func runC07(p *core.Prog, r *core.Report, tier string) {
 			}
 		})
 	}
-	r.Floor("C07.d forwarding sends", nSend, 14)
+	r.Floor("C07.d forwarding sends", nSend, 10)
 	// attestation data: the strategy's own validity rule (shared with C01.h)
 	checkAttestationDataStrategyFilter(p, r, ds, "C07.d")
 	// beaconblockproposal/best: zero fee recipient of execution-era blocks is refused
